@@ -85,10 +85,11 @@ SLICE_DISP_RULE = ('episodes = scenario programs run under the controlled schedu
 
 CONC = {
     'C02': dict(module='Properties.C02', file='Properties/C02.v', slices=['disp'],
-                families=['saturate', 'lifecycle', 'burst', 'pool', 'multiq'],
+                families=['saturate', 'lifecycle', 'burst', 'pool', 'multiq', 'staleloop'],
                 quick_episodes=250, thorough_episodes=3000,
-                rule=SLICE_DISP_RULE, trusted_base=TB_CONC,
-                assumptions=['one event loop at a time increments curProcessing: the precondition of the reservation step (nobody else incremented since the guard loaded curProcessing) is validated on every replayed trace, not proved from the goroutine-creation structure',
+                rule=SLICE_DISP_RULE + '; family staleloop: a directed schedule that holds the event loop right before its reservation across a Restart / Stop+Restart / Pause+Resume while its successor fills the limit',
+                trusted_base=TB_CONC,
+                assumptions=['the reservation step carries the value its own Add returned and the limit the thread loads next; that the code hands back a reservation above that limit is part of the replayed protocol (no assumption that there is one event loop)',
                              'n < 1 means runtime.NumCPU() (config.go withSafeConcurrency; covered by the lifecycle model C14_tunepool_sets_concurrency)']),
     'C06': dict(module='Properties.C06', file='Properties/C06.v', slices=['disp'],
                 families=['burst', 'lifecycle', 'cancel', 'saturate', 'pool', 'persist', 'ctlrace'],
@@ -111,7 +112,7 @@ CONC = {
                 assumptions=['job-level theorem: each enqueued job is handed out by its queue at most once (Fifo/Heap refinement theorems, C04) and each payload sent to a pool node is received at most once (channel semantics)',
                              '"eventually runs" is the progress property C03; identity of ID/data: monitors + C12']),
     'C03': dict(module='Properties.C03', file='Properties/C03.v', slices=['wake'],
-                families=['burst', 'lifecycle', 'cancel', 'saturate', 'pool', 'persist', 'recover', 'multiq', 'batch', 'order'],
+                families=['burst', 'lifecycle', 'cancel', 'saturate', 'pool', 'persist', 'recover', 'multiq', 'batch', 'order', 'staleloop'],
                 quick_episodes=150, thorough_episodes=2000, crash_props=['C03'],
                 native=dict(scenarios=['bigburst'], rounds=1, thorough_rounds=1),
                 rule='episodes = scenario programs run under the controlled scheduler on the instrumented library (see C01); per episode the worker-level wake-up protocol is projected onto '
